@@ -37,6 +37,7 @@ func init() {
 			"Content-described parameters (content: {<media>: {schema}}): 4 locations × media key sets × 10 schemas × JSON and non-JSON texts × one / several / no values × required × allowEmptyValue (verdict only). " +
 			"Cases whose style or explode equals the location's default also run with that keyword left out of the document (style only, explode only, both). " +
 			"Every header case runs twice: as a request parameter (ValidateParameter) and as a response header (ValidateResponse → validateResponseHeader). " +
+			"Whole requests (mode req): ValidateRequest on a route whose path item and operation both declare parameters — exhaustive: {query limit (3 declarations), header X-Seq (2)} declared or not on each level × list order × {one call, ExcludeRequestQueryParams call then default call} × MultiError × 6 requests; seeded: six location/name keys (incl. the same name in path and query; declarations with defaulted style/explode, an anyOf composition, and parameters of the classes EnumGoType and CookieExplode) × shuffled lists × 1–4 calls with per-call options (incl. nil Options) and requests; observed per call the failing parameters, after the calls the document's parameter slots. " +
 			"A case is non-trivial when the decoder is actually entered (the driver then reports cell, shape, verdict, value kind, round-trip oracle and model≠spec branches); requests with an empty PathParams map / empty query (early return) count as trivial.",
 		Exhaustive: true,
 		Gen:        genC05,
@@ -418,6 +419,9 @@ func c05RunContent(c hx.Case) any {
 }
 
 func runC05(c hx.Case) any {
+	if jstr(c, "mode") == "req" {
+		return c05RunReq(c)
+	}
 	if jstr(c, "mode") == "resp" {
 		return c05RunResp(c)
 	}
@@ -591,6 +595,9 @@ func cmpC05x(c hx.Case, impl any, reply map[string]any) hx.Verdict {
 	}
 	if jbool(reply, "unsupported") {
 		return hx.Verdict{IM: true, IS: true}
+	}
+	if jstr(c, "mode") == "req" {
+		return c05CmpReq(c, im, model, spec)
 	}
 	v := hx.Verdict{IM: true, IS: true}
 	if !jbool(spec, "enc_ok") {
@@ -945,6 +952,8 @@ func c05AbsentCar(cl c05Cell, name string, mode int) map[string]any {
 
 func genC05(ctx *hx.Ctx, emit0 func(hx.Case)) {
 	r := ctx.Rng
+	// whole requests through ValidateRequest: path-item and operation parameter lists, call sequences (c05req.go)
+	c05GenReq(ctx, emit0)
 	// every header case is also run as a response header (validateResponseHeader: the same decoder, another decision)
 	emit := func(c hx.Case) {
 		emit0(c)
@@ -1604,6 +1613,9 @@ func c05DropChars(s string) []string {
 }
 
 func shrinkC05(c hx.Case) []hx.Case {
+	if jstr(c, "mode") == "req" {
+		return c05ShrinkReq(c)
+	}
 	var out []hx.Case
 	if c["enc"] != nil {
 		x := cloneCase(c)
